@@ -190,6 +190,12 @@ def git_fault_campaign(chk, b, rng, tier, scratch):
                 jobs.append((sz, shimdir, gitdir, argv, {"sig": e["sig"], "ord": e["ord"], "mode": "fault", "before_exec": True,
                                                          "term": term, "stderr": "fatal: injected\n"}, baseline, d, jid))
                 jid += 1
+            if e["sig"] in ("rev-list", "cat-file --batch", "cat-file --batch-check", "for-each-ref") and not tname.startswith("large"):
+                # closes its output (cut or complete) and fails only seconds later: end-of-file and exit status arrive apart
+                for n, ms in ((L // 2, 2600), (L, 3400)) + (((max(0, L - 1), 6500),) if thorough else ()):
+                    jobs.append((sz, shimdir, gitdir, argv, {"sig": e["sig"], "ord": e["ord"], "mode": "fault", "after_bytes": n,
+                                                             "term": rng.choice(TERMS), "linger_ms": ms}, baseline, d, jid))
+                    jid += 1
             if e["sig"] in ("rev-list", "cat-file --batch", "cat-file --batch-check"):
                 # stays alive without reading stdin, then dies: the feeder is blocked mid-input on the large repository
                 jobs.append((sz, shimdir, gitdir, argv, {"sig": e["sig"], "ord": e["ord"], "mode": "fault", "before_exec": True,
@@ -405,6 +411,8 @@ def other_faults(chk, b, rng, tier, small_m, small, sz, d):
 
 
 def run(chk, b, tier):
+    from ._camp import vanishing_object_stage
+    vanishing_object_stage(chk, b, "C10", [], tier, must_fail=True)
     rng = random.Random("C10|%d" % R.SEED)
     scratch = b.scratchdir()
     small_m, small, sz, d = git_fault_campaign(chk, b, rng, tier, scratch)
